@@ -28,7 +28,7 @@ CLAIM = dict(
           'integrators is a θ=½ Crank–Nicolson or backward-Euler pair with matching, consistent weights, the low-storage register update and the IMEX-RK stage '
           'table (unrolled on the SIL3 literals) have the form of the scheme. Does not decide the Taylor-order claim for arbitrary nonlinear F or numerical '
           'amplification factors (needs execution).'
-          ' Later additions: the IMEX tableau guard requires equal stage counts across the explicit and implicit halves (folded over length patterns); crank_nicolson_rk2 returns its last implicit solve (the amplification factor is that of the solve, not a difference of large terms).'),
+          ' Later additions: the IMEX tableau guard requires equal stage counts across the explicit and implicit halves (folded over length patterns); crank_nicolson_rk2 returns its last implicit solve (the amplification factor is that of the solve, not a difference of large terms). A sparse probe tableau (a stage used by the next stage only, zero final weight) is pushed through the generic IMEX driver.'),
     note=('Trusted: python ast; sympy canonicalisation; Butcher order conditions up to 4 and the 2N-storage identity (cited in rules/c06.py); tree_math '
           'wrappers only re-package pytrees. A necessary-condition check: a broken rule instance breaks order/stability/validation for some input; passing '
           'all instances does not prove the numerical claim.'),
